@@ -435,7 +435,30 @@ def t3_tsv(ctx):
     bad_default = [c for c in gets if len(c.args) == 2 and not (is_none(c.args[1]) or const_value(c.args[1]) == '')]
     row_sub = [n for n in ast.walk(w.node) if isinstance(n, ast.Subscript) and isinstance(n.ctx, ast.Load) and isinstance(n.value, ast.Name) and n.value.id in ('row', 'r', 'd') and
                isinstance(n.slice, ast.Name)]
-    if ok_none and not bad_default:
+    # `row[field] ... if field in row`: the lookup is guarded, absent fields are left to the writer (csv.DictWriter fills them with restval)
+    def guarded(n):
+        nm, key = n.value.id, n.slice.id
+        for a_ in w.ancestors(n):
+            tests = []
+            if isinstance(a_, (ast.ListComp, ast.DictComp, ast.SetComp, ast.GeneratorExp)):
+                tests = [t_ for g_ in a_.generators for t_ in g_.ifs]
+            elif isinstance(a_, ast.IfExp) and q.contains(a_.body, n):
+                tests = [a_.test]
+            elif isinstance(a_, ast.If) and any(q.contains(b_, n) for b_ in a_.body):
+                tests = [a_.test]
+            if any(Pat().m('%s in %s' % (key, nm), t_) for t_ in tests):
+                return True
+        return False
+    dictw = [c for c in w.calls() if (dotted(c.func) or '').split('.')[-1] == 'DictWriter']
+    if row_sub and all(guarded(n) for n in row_sub) and not gets and not get_refs:
+        rv = q.kwarg(dictw[0], 'restval') if dictw else None
+        if dictw and (rv is None or is_none(rv) or const_value(rv) == ''):
+            ctx.holds('C18.T3', w, 'absent fields are written as empty cells (guarded lookup, csv.DictWriter fills the missing keys with an empty restval)', dictw[0])
+        elif dictw and isinstance(rv, ast.Constant):
+            ctx.violated('C18.T3', w, dictw[0], 'absent fields are written as `%s`, not as empty cells' % unparse(rv))
+        else:
+            ctx.undecided('C18.T3', w, 'how a cell of an absent field is produced was not recognised (guarded row lookup)')
+    elif ok_none and not bad_default:
         ctx.holds('C18.T3', w, 'absent fields are written as empty cells (row.get(field, None))', (gets or get_refs)[0])
     elif bad_default or (row_sub and not gets and not get_refs):
         ctx.violated('C18.T3', w, (bad_default or row_sub)[0], 'absent fields are not written as empty cells (`%s`)' % unparse((bad_default or row_sub)[0]))
